@@ -621,7 +621,7 @@ func (e *Engine) judge(vc *VC, g *goGen, panicked bool, panicType string, res []
 	for _, cl := range con.Clauses {
 		if cl.Kind == "modifies" {
 			for _, me := range cl.Exprs {
-				if tg, ok := jvc.resolveTarget(me, env); ok {
+				for _, tg := range jvc.resolveTargets(me, env) {
 					modTargets[tg.heap] = true
 				}
 			}
